@@ -31,7 +31,7 @@ fn spec(t: Tier) -> Spec {
     Spec {
         id: "C15",
         level: "exploration",
-        rule: format!("(A) for kind in {{a,c,m}} x period in {{60 s, 86400 s}} x k in {:?} (and, with operands 0, 1, k-2..k+2, 2^31 only, the large k {:?} days / {:?} minutes: whole seconds above 2^24, 2^31, 2^32) x age in {{k*P-1s, k*P-1ns, k*P, k*P+1ns, k*P+1s}} (>=0) x sub-second phase of the timestamp in {:?}: the injected now() is set to (timestamp read back by lstat) + age, the two other timestamps of the file sit in other periods, a second file is one period older; every N in 0..k+2 (and 2^31) x forms N,+N,-N of the matching -Xtime / -Xmin primary is evaluated by the real find; expected = floor(age/P) ==,>,< N. (B) entry/reference pairs built so that entry.X - reference.Y is -1s,-1ns,0,+1ns,+1s for each (X,Y) in {{a,c,m}}^2 (c by ordering real metadata changes and reading back; equality of c via a hard link), at two placements (about 1000 days before/after the status-change times; for pairs not involving c also in 1969 and 1931, i.e. negative seconds with a sub-second part) and {} base phases; on every pair ALL of -newer, -anewer, -cnewer and the nine -newerXY are evaluated; expected = entry.X > reference.Y at nanosecond resolution from lstat() read back. (C) one run of the find binary against the real clock: an earlier starting point runs `sleep 4`, entries that were 56 s / one day minus 4 s old when find started are visited afterwards and must still count as 0 minutes / 0 days old (now fixed at start). evaluation = (file, primary, operand); non-trivial = age within 1 s of a period boundary (A) / the pair's controlled difference concerns that primary's X,Y (B)", ks(t), big_ks(t, DAY), big_ks(t, 60), phases(t), phases(t).len()),
+        rule: format!("(A) for kind in {{a,c,m}} x period in {{60 s, 86400 s}} x k in {:?} (and, with operands 0, 1, k-2..k+2, 2^31 only, the large k {:?} days / {:?} minutes: whole seconds above 2^24, 2^31, 2^32) x age in {{k*P-1s, k*P-1ns, k*P, k*P+1ns, k*P+1s}} (>=0) x sub-second phase of the timestamp in {:?}: the injected now() is set to (timestamp read back by lstat) + age, the two other timestamps of the file sit in other periods, a second file is one period older; every N in 0..k+2 (and 2^31) x forms N,+N,-N of the matching -Xtime / -Xmin primary is evaluated by the real find; expected = floor(age/P) ==,>,< N. (B) entry/reference pairs built so that entry.X - reference.Y is -1s,-1ns,0,+1ns,+1s for each (X,Y) in {{a,c,m}}^2 (c by ordering real metadata changes and reading back; equality of c via a hard link), at two placements (about 1000 days before/after the status-change times; for pairs not involving c also in 1969 and 1931, i.e. negative seconds with a sub-second part) and {} base phases; on every pair ALL of -newer, -anewer, -cnewer and the nine -newerXY are evaluated; expected = entry.X > reference.Y at nanosecond resolution from lstat() read back. (D) under TZ=GMT0BST,M3.5.0/1,M10.5.0 and EST5EDT (daylight-saving rules), file and now() on either side of a 2026 switch, ages of k days (or the matching minutes) plus 30 min / 23 h 30 min: -mtime/-atime/-mmin/-amin N,+N,-N around k — an age is elapsed time. Files stamped 1960, 1969-12-31T23:59:30 and 1931 with now() 22 000-25 000 days / 32 000 000 minutes later. (C) one run of the find binary against the real clock: an earlier starting point runs `sleep 4` (no time test is evaluated before that: they are guarded by -path 's2/*', so a clock read lazily at the first time test shows too), entries that were 56 s / one day minus 4 s old when find started are visited afterwards and must still count as 0 minutes / 0 days old (now fixed at start). evaluation = (file, primary, operand); non-trivial = age within 1 s of a period boundary (A) / the pair's controlled difference concerns that primary's X,Y (B)", ks(t), big_ks(t, DAY), big_ks(t, 60), phases(t), phases(t).len()),
         bound: json!({"k": ks(t), "periods": [60, 86400], "deltas_ns": [-1_000_000_000i64, -1, 0, 1, 1_000_000_000i64], "xy": "a,c,m squared + -newer -anewer -cnewer"}),
         assumptions: vec![
             "-daystart, -newerXt, -newerB?, negative ages are outside the statement".into(),
@@ -132,6 +132,102 @@ fn part_a(ctx: &mut Ctx) {
                 }
             }
         }
+    }
+}
+
+/// Files stamped before 1970 (negative seconds, with a sub-second part): the age is still the
+/// elapsed time to the injected now() — 22 000 days / 32 000 000 minutes later, around the period
+/// boundaries.
+fn pre_epoch_ages(ctx: &mut Ctx) {
+    let sbx = ctx.sbx.clone();
+    let dir = sbx.join("t");
+    let mut case_no = 5_000_000u64;
+    for (stamp, phase) in [(-315_619_200i128, 250_000_000i64), (-30, 999_999_999), (-86_400 * 14_000, 1)] {
+        let _ = crate::sandbox::force_remove(&dir);
+        if std::fs::create_dir(&dir).is_err() {
+            ctx.rep.machinery("pre-epoch sandbox".into());
+            return;
+        }
+        for (n, off) in [("f", 0i128), ("g", -DAY)] {
+            let _ = std::fs::write(dir.join(n), b"");
+            let ts = (stamp + off) * NS + phase as i128;
+            if let Err(e) = lb::set_times(&dir.join(n), split(ts), split(ts)) {
+                ctx.rep.machinery(format!("pre-epoch times: {e}"));
+                return;
+            }
+        }
+        for kind in ['a', 'm'] {
+            for (period, k) in [(DAY, 22_000i128), (DAY, 25_000), (60, 32_000_000)] {
+                for d in [-NS, -1, 0, 1, NS] {
+                    case_no += 1;
+                    if !ctx.mine(case_no) {
+                        continue;
+                    }
+                    ctx.rep.count("pre_epoch_age_cases", 1);
+                    one_age_case(ctx, kind, period, k, k * period * NS + d, phase);
+                }
+            }
+        }
+    }
+}
+
+/// A time zone with daylight saving (POSIX rule, no tzdata needed): an age is elapsed time, not a
+/// difference of wall-clock readings. File and now() lie on either side of the 2026 switches
+/// (29 March, 25 October), the age within half an hour of a day / minute boundary.
+fn dst_slice(ctx: &mut Ctx) {
+    let sbx = ctx.sbx.clone();
+    let dir = sbx.join("t");
+    let old_tz = std::env::var_os("TZ");
+    // 2026-03-20 12:00:00 UTC and 2026-10-20 12:00:00 UTC
+    for (zone, stamp) in [("GMT0BST,M3.5.0/1,M10.5.0", 1_774_008_000i128), ("GMT0BST,M3.5.0/1,M10.5.0", 1_792_497_600), ("EST5EDT,M3.2.0,M11.1.0", 1_772_798_400), ("UTC0", 1_774_008_000)] {
+        std::env::set_var("TZ", zone);
+        let _ = crate::sandbox::force_remove(&dir);
+        if std::fs::create_dir(&dir).is_err() {
+            break;
+        }
+        let _ = std::fs::write(dir.join("f"), b"");
+        if lb::set_times(&dir.join("f"), split(stamp * NS), split(stamp * NS)).is_err() {
+            break;
+        }
+        for (k, extra_s) in [(30i128, 23 * 3600 + 1800), (30, 1800), (10, 23 * 3600 + 1800), (10, 1800), (1, 23 * 3600 + 1800)] {
+            let age = (k * DAY + extra_s) * NS;
+            let now = to_system(stamp * NS + age);
+            let mut tests: Vec<Test> = vec![];
+            let mut want: Vec<bool> = vec![];
+            for n in k - 1..=k + 1 {
+                for (f, pre) in ["", "+", "-"].iter().enumerate() {
+                    for (prim, unit) in [("-mtime", DAY), ("-atime", DAY), ("-mmin", 60), ("-amin", 60)] {
+                        let measured = age / (unit * NS);
+                        let nn = if unit == DAY { n } else { measured + (n - k) };
+                        tests.push(vec![prim.to_string(), format!("{pre}{nn}")]);
+                        want.push([measured == nn, measured > nn, measured < nn][f]);
+                    }
+                }
+            }
+            match lb::run_labelled(&[], &["t"], &["-mindepth", "1"], &tests, now) {
+                Ok(sel) if sel.out.code == Ok(0) => {
+                    for (ti, w) in want.iter().enumerate() {
+                        let got = sel.sel[ti].contains("t/f");
+                        ctx.rep.evaluations += 1;
+                        ctx.rep.nontrivial += 1;
+                        if got != *w {
+                            ctx.rep.violation(
+                                &format!("C15 {} wrong across a daylight-saving switch (an age is elapsed time, not a difference of local clock readings)", tests[ti][0]),
+                                format!("TZ={zone}: file stamped {stamp} (UTC seconds), now {} s later ({k} days + {extra_s} s): {} {} gave {got}, expected {w}", age / NS, tests[ti][0], tests[ti][1]),
+                                json!({"prop":"C15","part":"DST"}),
+                            );
+                        }
+                    }
+                }
+                Ok(sel) => ctx.rep.violation("C15 non-zero status [DST slice]", sel.out.brief(), json!({"prop":"C15","part":"DST"})),
+                Err((why, out, _)) => ctx.rep.violation("C15 output not attributable [DST slice]", format!("{why}: {}", out.brief()), json!({"prop":"C15","part":"DST"})),
+            }
+            ctx.rep.count("dst_cases", 1);
+        }
+    }
+    match old_tz {
+        Some(v) => std::env::set_var("TZ", v),
+        None => std::env::remove_var("TZ"),
     }
 }
 
@@ -425,7 +521,7 @@ fn part_c(ctx: &mut Ctx) {
     let t0_ns = t0n.as_secs() as i128 * NS + t0n.subsec_nanos() as i128;
     let _ = lb::set_times(&sbx.join("s2/m"), split(t0_ns - 56 * NS), split(t0_ns - 56 * NS));
     let _ = lb::set_times(&sbx.join("s2/d"), split(t0_ns - (DAY - 4) * NS), split(t0_ns - (DAY - 4) * NS));
-    let argv: Vec<String> = ["s1", "s2", "-sorted", "(", "-path", "s1/first", "-exec", "sleep", "4", ";", ")", ",", "(", "-mmin", "0", "-printf", "M0 %p\\n", ")", ",", "(", "-mmin", "1", "-printf", "M1 %p\\n", ")", ",", "(", "-mtime", "0", "-printf", "D0 %p\\n", ")", ",", "(", "-mtime", "1", "-printf", "D1 %p\\n", ")", ",", "(", "-amin", "-1", "-printf", "A0 %p\\n", ")"].iter().map(|s| s.to_string()).collect();
+    let argv: Vec<String> = ["s1", "s2", "-sorted", "(", "-path", "s1/first", "-exec", "sleep", "4", ";", ")", ",", "(", "-path", "s2/*", "-mmin", "0", "-printf", "M0 %p\\n", ")", ",", "(", "-path", "s2/*", "-mmin", "1", "-printf", "M1 %p\\n", ")", ",", "(", "-path", "s2/*", "-mtime", "0", "-printf", "D0 %p\\n", ")", ",", "(", "-path", "s2/*", "-mtime", "1", "-printf", "D1 %p\\n", ")", ",", "(", "-path", "s2/*", "-amin", "-1", "-printf", "A0 %p\\n", ")"].iter().map(|s| s.to_string()).collect();
     let aos: Vec<&std::ffi::OsStr> = argv.iter().map(std::ffi::OsStr::new).collect();
     let o = crate::binrun::run(&crate::binrun::repo_bin("find"), &aos, &sbx, &crate::binrun::Opts { timeout_s: 60, ..Default::default() });
     let elapsed = t0.elapsed().map(|d| d.as_secs_f64()).unwrap_or(99.0);
@@ -450,16 +546,24 @@ fn part_c(ctx: &mut Ctx) {
 }
 
 fn run(ctx: &mut Ctx) {
+    pre_epoch_ages(ctx);
     part_a(ctx);
     part_b(ctx);
     if ctx.shard == 0 {
         part_c(ctx);
+    }
+    if ctx.shard == 1 % ctx.nshards {
+        dst_slice(ctx);
     }
 }
 
 fn replay(case: &Value, ctx: &mut Ctx) -> Option<String> {
     let sbx = ctx.sbx.clone();
     let before = ctx.rep.violations.len();
+    if case["part"] == "DST" {
+        dst_slice(ctx);
+        return ctx.rep.violations.keys().next().cloned();
+    }
     if case["part"] == "C" {
         part_c(ctx);
         return ctx.rep.violations.keys().next().cloned();
